@@ -14,6 +14,8 @@ from harness.refmodel import freeze
 S = load()
 
 PROPERTY = "C20"
+LEVEL_TEXT = 'Exploration: totality of repr over every dtype / length / width / name pattern / set_repr_rows setting, and truth of footer, preview and headers by parsing legible reprs back; atheris campaign in the thorough tier.'
+LEVEL_NOTE = 'Preview limit = 2*(n//2); floats compared to 6 significant digits.'
 DESIGN_REF = "DESIGN.md §5 C20"
 ENGINE = "fuzz"
 TECHNIQUE = "property-based testing: totality of repr() over generated vectors/tables of every dtype, length, width, name pattern and set_repr_rows setting; truth of footer / preview / headers by parsing the repr of 'legible' tables back and comparing with the data"
